@@ -35,7 +35,8 @@ def main():
     sh(["git", "-C", "/repo", "worktree", "remove", "--force", wt])
     base = os.environ.get("SEED_BASE", "HEAD")  # the commit the change was written against
     rc, o = sh(["git", "-C", "/repo", "worktree", "add", "-q", "--detach", wt, base])
-    meta = {"property": prop, "slug": slug, "repo_head": sh(["git", "-C", "/repo", "rev-parse", "--short", base])[1].strip(), "ran": []}
+    meta = {"property": prop, "slug": slug, "repo_head": sh(["git", "-C", "/repo", "rev-parse", "--short", base])[1].strip(), "ran": [],
+            "harness_commit": sh(["git", "-C", VERIF, "log", "-1", "--format=%h", "--", "sim", "check"])[1].strip()}
     try:
         # place the demo
         placed = []
